@@ -37,6 +37,17 @@ func atomMatches(a Atom, i, o Obj) bool {
 		return o.NS == i.NS
 	case "valIndex":
 		return o.Val == i.Val
+	case "outIndex":
+		want := map[string]string{"v1": "k1", "v2": "k2", "v3": "k3"}[i.Val]
+		if want == "" {
+			want = "k4"
+		}
+		for _, k := range o.Outs {
+			if k == want {
+				return true
+			}
+		}
+		return false
 	case "keys":
 		return o.ResourceName() == i.Ref || o.ResourceName() == i.NS+"/x"
 	case "objName":
@@ -375,8 +386,12 @@ func oracleOps(t *testing.T, opsPath, outPath string) {
 		switch {
 		case len(head) >= 4 && strings.HasPrefix(head[2], "joinx"):
 			w.Line("OK")
-		case len(head) >= 3 && (strings.HasPrefix(head[2], "misc") || strings.HasPrefix(head[2], "idxc") || strings.HasPrefix(head[2], "inf")):
-			w.Line("OK")
+		case len(head) >= 3 && strings.HasPrefix(head[2], "misc"):
+			w.Line(oracleMiscCase(t, cs))
+		case len(head) >= 3 && strings.HasPrefix(head[2], "idxc"):
+			w.Line(oracleIdxcCase(t, cs))
+		case len(head) >= 3 && strings.HasPrefix(head[2], "inf"):
+			w.Line(oracleInfCase(t, cs))
 		case len(head) >= 4 && strings.HasPrefix(head[2], "join"):
 			w.Line(oracleJoinCase(t, cs))
 		case len(head) >= 3 && strings.HasPrefix(head[2], "mem"):
